@@ -374,6 +374,14 @@ def _slicer_group(ctx, rng, judge, control):
         judge([Fault("slicer-unknown-kwarg", 0, name)], mk_kw, c_ok)
         judge([Fault("slicer-unknown-reference-keyword", 0, name)], lambda mk=mk_ref: mk().slice_(sl_data), c_ok)
         judge([Fault("slicer-reference-wrong-type", 0, name)], lambda mk=mk_type: mk().slice_(sl_data), c_ok)
+    # an unknown option is unknown whatever its value (None, 0, False, an empty tuple)
+    from virocon import NumberOfIntervalsSlicer as _N, PointsPerIntervalSlicer as _P, WidthOfIntervalSlicer as _W
+
+    c_okw = control(lambda: _W(0.5, min_n_points=5).slice_(sl_data))
+    for val in (None, 0, False, ()):
+        judge([Fault("slicer-unknown-kwarg", 0, f"woi/min_n_point={val!r}")], lambda val=val: _W(0.5, min_n_point=val), c_okw)
+        judge([Fault("slicer-unknown-kwarg", 0, f"noi/foo={val!r}")], lambda val=val: _N(5, foo=val), c_okw)
+        judge([Fault("slicer-unknown-kwarg", 0, f"ppi/min_intervals={val!r}")], lambda val=val: _P(50, min_intervals=val), c_okw)
     # too few intervals for the declared minimum - single calls and a slicer OBJECT that has seen a narrow data set before
     from virocon import WidthOfIntervalSlicer
 
